@@ -3,9 +3,12 @@
 The budget is *CPU time of this process* (ITIMER_VIRTUAL): a call that loops forever burns CPU and is
 stopped after `seconds`, while a machine that is busy with other work (16 TLC processes, a parallel run
 of another check) cannot make a fast call look like a hang.  A generous wall-clock timer backs it up
-for calls that block without using CPU."""
+for calls that block without using CPU.  The cyclic garbage collector is switched off for the duration
+of the call: with a million recorded events alive (thorough tiers) one full collection takes several CPU
+seconds, which made two instantaneous calls look like hangs in a thorough run of C11."""
 from __future__ import annotations
 
+import gc
 import signal
 
 
@@ -19,6 +22,8 @@ def _handler(signum, frame):
 
 def call(fn, seconds: float = 2.0):
     """Returns ("ok", value) | ("timeout", None) | ("raise", exception)."""
+    gc_was_on = gc.isenabled()
+    gc.disable()
     old_v = signal.signal(signal.SIGVTALRM, _handler)
     old_r = signal.signal(signal.SIGALRM, _handler)
     signal.setitimer(signal.ITIMER_VIRTUAL, seconds)
@@ -36,3 +41,5 @@ def call(fn, seconds: float = 2.0):
         signal.setitimer(signal.ITIMER_REAL, 0)
         signal.signal(signal.SIGVTALRM, old_v)
         signal.signal(signal.SIGALRM, old_r)
+        if gc_was_on:
+            gc.enable()
